@@ -12,7 +12,7 @@ export CARGO_TARGET_DIR="$HERE/miri/target"
 # the simulator's cfg flags (custom getrandom backend, hooks) must not leak into the Miri build
 unset RUSTFLAGS
 case "$ID" in
-  C17) SCEN="local4:32 local2:32 wrap4:24 public4:6" ;;
+  C17) SCEN="local4:32 local2:32 wrap4:24 refresh4:16 public4:6" ;;
   C04) SCEN="parse:24 local4:8" ;;
   *) echo "no miri tier for $ID"; exit 0 ;;
 esac
